@@ -32,6 +32,7 @@ from geneticengine.evaluation.sequential import SequentialEvaluator
 from geneticengine.evaluation.tracker import MultiObjectiveProgressTracker, SingleObjectiveProgressTracker
 from geneticengine.problems import MultiObjectiveProblem, SingleObjectiveProblem
 from geneticengine.random.sources import NativeRandomSource
+from geneticengine.solutions.individual import Individual
 
 RULE = ("ALL histories of fitness values over {0,1,2} of length 1..6 (thorough: 1..9), both optimisation directions, fed to the real "
         "single-objective tracker one by one or as one batch; ALL histories of aggregates over {0,1,2} of length 1..6 (thorough 1..8) "
@@ -274,6 +275,11 @@ def run_multi(aggs, variant, batching, repeats=None, pre=False):
         problem = MultiObjectiveProblem([True], lambda ph: [-ph[1]])
     elif variant == "one-min-bool":
         problem = MultiObjectiveProblem(True, lambda ph: [-ph[1]])
+    elif variant == "bool-max":
+        # ONE bool for all objectives, and it says "maximise"
+        problem = MultiObjectiveProblem(False, lambda ph: [ph[1] - (ph[0] % 2), ph[0] % 2])
+    elif variant == "one-max-bool":
+        problem = MultiObjectiveProblem(False, lambda ph: [ph[1]])
     else:
         problem = MultiObjectiveProblem([False, False], lambda ph: [ph[1], 7 - ph[0]], aggregate_fitness=lambda comps: comps[0])
     tracker = MultiObjectiveProgressTracker(problem, SequentialEvaluator(), recorders=[rec])
@@ -292,7 +298,7 @@ def run_multi(aggs, variant, batching, repeats=None, pre=False):
     return rec, tracker
 
 
-VARIANT_MINS = {"default": [False, True], "bool": [True, True], "one-min": [True], "one-min-bool": [True]}
+VARIANT_MINS = {"default": [False, True], "bool": [True, True], "one-min": [True], "one-min-bool": [True], "bool-max": [False, False], "one-max-bool": [False]}
 
 
 def judge_multi(h: Harness, site, rec, label, variant=None):
@@ -319,8 +325,8 @@ def check_multi_histories(h: Harness):
     k = 0
     for n in range(1, L + 1):
         for aggs in itertools.product((0, 1, 2), repeat=n):
-            variant = ("default", "bool", "user", "one-min", "one-min-bool")[k % 5]
-            batching = ("one-by-one", "batch", "generator")[(k // 5) % 3]
+            variant = ("default", "bool", "user", "one-min", "one-min-bool", "bool-max", "one-max-bool")[k % 7]
+            batching = ("one-by-one", "batch", "generator")[(k // 7) % 3]
             k += 1
             pre = k % 4 == 1
             rec, _ = run_multi(aggs, variant, batching, pre=pre)
@@ -333,7 +339,7 @@ def check_multi_histories(h: Harness):
         m = rng.randint(n, n + 5)
         repeats = list(range(n)) + [rng.randrange(n) for _ in range(m - n)]
         rng.shuffle(repeats)
-        variant = rng.choice(["default", "bool", "user", "one-min", "one-min-bool"])
+        variant = rng.choice(["default", "bool", "user", "one-min", "one-min-bool", "bool-max", "one-max-bool"])
         rec, _ = run_multi(aggs, variant, rng.choice(["one-by-one", "batch", "generator"]), repeats)
         judge_multi(h, site, rec, f"aggregates {aggs} presented in order {repeats} ({variant} aggregate)", variant)
         h.count("multi:re-presented")
@@ -450,6 +456,90 @@ def check_searches(h: Harness):
                                f" (uid {u} {'was' if u in handed else 'was never'} handed to the tracker, {'was' if u in registered else 'was never'} announced to recorders)",
                                {"algo": algo, "kind": kind, "n": n, "keys": keys})
                         break
+
+
+def check_one_tracker_several_searches(h: Harness):
+    """one tracker lives through SEVERAL searches (a random-search warm start followed by hill climbing or GP, the same algorithm
+    object searched twice, individuals evaluated through the tracker before the search): "every individual evaluated so far" is
+    counted from the tracker's first evaluation -- the second search returns the best of everything, and recorders are told
+    "new best" only for strict improvements on everything announced before"""
+    rng = h.rng
+    for trial in range(h.n(60, 500)):
+        kind = ("single-max", "single-min", "multi")[trial % 3]
+        keys = [rng.randint(0, 6) for _ in range(50)]
+        # (the better values come first: what the later searches find is, more often than not, no improvement)
+        if trial % 2 == 0:
+            head = sorted(keys[:10], reverse=(kind != "single-min"))
+            keys = head + keys[10:]
+        rec = Recording()
+        if kind == "multi":
+            problem = MultiObjectiveProblem([False, True], lambda ph: [ph[1], 1])
+            tracker = MultiObjectiveProgressTracker(problem, SequentialEvaluator(), recorders=[rec])
+            minimize = False
+        else:
+            minimize = kind == "single-min"
+            problem = SingleObjectiveProblem(lambda ph: ph[1], minimize=minimize)
+            tracker = SingleObjectiveProgressTracker(problem, SequentialEvaluator(), recorders=[rec])
+        rep = ScriptRep(keys)
+        random = NativeRandomSource(rng.randrange(10**6))
+        phases = []
+        site = "search"
+        ret = None
+        try:
+            n_phases = rng.choice([2, 2, 3])
+            same = None
+            for ph in range(n_phases):
+                total = tracker.get_number_evaluations()
+                algo = rng.choice(["seed", "RandomSearch", "OnePlusOne", "HC", "GeneticProgramming", "again"])
+                if algo == "again" and same is None:
+                    algo = "RandomSearch"
+                if algo == "seed" and ph == n_phases - 1:
+                    algo = "HC"       # (the history ends with a search: its return value is what is judged)
+                if algo == "seed":
+                    m = rng.randint(1, 5)
+                    tracker.evaluate([Individual(rep.create_genotype(random), rep) for _ in range(m)])
+                    phases.append(f"tracker.evaluate({m} new individuals)")
+                    continue
+                budget = EvaluationBudget(total + rng.randint(1, 9))
+                if algo == "again":
+                    same.budget = budget
+                    alg = same
+                    phases.append(f"the same {type(alg).__name__} object searched again")
+                elif algo == "RandomSearch":
+                    alg = RandomSearch(problem, budget, rep, random, tracker)
+                elif algo == "OnePlusOne":
+                    alg = OnePlusOne(problem, budget, rep, random, tracker)
+                elif algo == "HC":
+                    alg = HC(problem, budget, rep, random, tracker, number_of_mutations=rng.randint(1, 3))
+                else:
+                    alg = GeneticProgramming(problem, budget, rep, random, tracker, population_size=rng.randint(2, 4), step=default_generic_programming_step())
+                if algo != "again":
+                    phases.append(f"{algo}(EvaluationBudget({budget.evaluations_budget}))")
+                same = alg
+                site = f"{type(alg).__name__}.search"
+                ret = alg.search()
+        except Exception as e:  # noqa: BLE001
+            h.fail(site, "raises", f"one tracker through {phases} on a {kind} problem: {type(e).__name__}: {e}", {"trial": trial, "kind": kind, "keys": keys})
+            continue
+        desc = f"one tracker through {phases} on a {kind} problem, scripted fitness keys {keys[:12]}…"
+        h.count(f"several-searches:{kind}")
+        if site == "search":
+            continue
+        hist_agg = [[r["uid"], as_int(r["agg"])] for r in rec.rows]
+        hist_raw = [[r["uid"], as_int(r["comps"][0])] for r in rec.rows] if kind != "multi" else hist_agg
+        nt = nontrivial_history([x[1] for x in hist_raw])
+        replay = {"trial": trial, "kind": kind, "keys": keys, "phases": phases}
+        if ret is None and rec.rows:
+            h.fail(site, "returns-none", f"{desc}: the last search() returned None although the tracker had evaluated {len(rec.rows)} individuals", replay)
+            continue
+        rid = None if ret is None else uid(ret)
+        h.agree(site, ["search_result", "multi" if kind == "multi" else "single", hist_agg], rid, nontrivial=nt)
+        h.holds(site, "returned-not-best", ["prop_returned", minimize, hist_raw, rid],
+                f"{desc}: the last search returned uid {rid}; registrations over the tracker's lifetime (uid,value)={hist_raw}", replay, nontrivial=nt)
+        if kind == "multi":
+            judge_multi(h, "MultiObjectiveProgressTracker.evaluate", rec, desc)
+        else:
+            judge_single(h, "SingleObjectiveProgressTracker.evaluate", rec, minimize, desc)
 
 
 class TapStep(GeneticStep):
@@ -578,3 +668,4 @@ def run(h: Harness):
     h.exhaustive = True
     check_scale_invariance(h)
     check_searches(h)
+    check_one_tracker_several_searches(h)
